@@ -70,7 +70,7 @@ def handleE (ts : List String) : Option (Verdict × EInfo) := do
     pure ((n, rs), ts)) k ts
   if !ts.isEmpty then none else
   let cfg := if sxr then DeCfg.serdeXmlRs else DeCfg.quickXml
-  match readProgram txt with
+  match readProgramN txt with
   | none => some (.corr "rendered text is not a sequence of struct items", {})
   | some prog =>
     let inside := docs.filter fun (n, _) => n.inModel cfg
